@@ -300,3 +300,234 @@ kproof_vp! { fn k02e_step_lit_lazy_h3() { token_step::<6, 2>(false, false, true,
 kproof_vp! { fn k02e_step_ref_lazy_h3() { token_step::<6, 2>(true, false, true, 1); } }
 kproof_vp! { fn k02e_step_lit_greedy_h3() { token_step::<6, 2>(false, false, false, 1); } }
 kproof_vp! { fn k02e_step_ref_greedy_h3() { token_step::<6, 2>(true, false, false, 1); } }
+
+// ---------------------------------------------------------------------------
+// Token mirror over a CONTRACT holder (C02, C08, C04): the matcher behind `Box<dyn HashChainHolder>` is replaced, at
+// the trait seam, by an object that answers every query with an ARBITRARY result allowed by the matcher's contract,
+// but answers the same query in the same dictionary state identically (memo tables shared by the analysis and the
+// reconstruction side).  That is all predict_block / recreate_block may rely on:
+//   * match_token_0/1: a function of (offset, prev_len, max_depth, cursor, dictionary state); Success carries a reference
+//     inside the text (k05e_match_total_*);
+//   * hop_match(len, calculate_hops(ref)) == ref.dist in the same state, hop counts >= 1, distinct distances at
+//     distinct hop counts (k02d_hops_inverse_*);
+//   * update_hash: the real DictionaryAddPolicy decides which positions are inserted; the inserted positions are logged
+//     per side and compared at the end (the dictionary state is identified by that log).
+// ---------------------------------------------------------------------------
+use crate::hash_chain_holder::verif_harness::{UPD_LOG, UPD_N, UPD_CAP};
+const MK: usize = 8;
+const HK: usize = 4;
+static mut M_KEY: [[u32; 5]; MK] = [[0; 5]; MK];
+static mut M_RES: [[u32; 3]; MK] = [[0; 3]; MK];
+static mut M_N: usize = 0;
+static mut H_REC: [[u32; 6]; HK] = [[0; 6]; HK]; // pos, state, len, dist, hops, ok
+static mut H_N: usize = 0;
+pub struct ContractHolder { policy: crate::add_policy_estimator::DictionaryAddPolicy }
+fn ch_state() -> u32 { unsafe { UPD_N[UPD_SIDE] as u32 } }
+impl ContractHolder {
+    fn reset() { unsafe { M_N = 0; H_N = 0; UPD_N = [0; 2]; } }
+    fn query(&self, offset: u32, prev_len: u32, max_depth: u32, input: &PreflateInput) -> MatchResult {
+        let key = [offset, prev_len, max_depth, input.pos(), ch_state()];
+        unsafe {
+            let mut i = 0;
+            while i < MK {
+                if i < M_N && M_KEY[i] == key {
+                    return Self::decode(M_RES[i]);
+                }
+                i += 1;
+            }
+            kani::assume(M_N < MK); // bound: at most MK distinct matcher queries per harness
+            let p = input.pos() + offset;
+            let rem = input.size() - core::cmp::min(p, input.size());
+            let mut v: u32 = kani::any();
+            kani::assume(v < 5);
+            let len: u32 = kani::any();
+            let dist: u32 = kani::any();
+            if v == 0 {
+                if rem >= 1 && p >= 1 { kani::assume(len >= 1 && len <= 258 && len <= rem && dist >= 1 && dist <= p); } else { v = 3; }
+            }
+            M_KEY[M_N] = key;
+            M_RES[M_N] = [v, len, dist];
+            M_N += 1;
+            Self::decode([v, len, dist])
+        }
+    }
+    fn decode(r: [u32; 3]) -> MatchResult {
+        match r[0] {
+            0 => MatchResult::Success(PreflateTokenReference::new(r[1], r[2], false)),
+            1 => MatchResult::DistanceLargerThanHop0(r[1], r[2]),
+            2 => MatchResult::NoInput,
+            3 => MatchResult::NoMoreMatchesFound,
+            _ => MatchResult::MaxChainExceeded(r[1]),
+        }
+    }
+}
+impl HashChainHolder for ContractHolder {
+    fn update_hash(&mut self, length: u32, input: &PreflateInput) {
+        self.policy.update_hash(input.cur_chars(0), input.pos(), length, |_c, pos, len| unsafe {
+            let s = UPD_SIDE;
+            let mut i = 0;
+            while i < len {
+                if UPD_N[s] < UPD_CAP { UPD_LOG[s][UPD_N[s]] = pos + i; }
+                UPD_N[s] += 1;
+                i += 1;
+            }
+        });
+    }
+    fn match_token_0(&self, prev_len: u32, max_depth: u32, input: &PreflateInput) -> MatchResult { self.query(0, prev_len, max_depth, input) }
+    fn match_token_1(&self, prev_len: u32, max_depth: u32, input: &PreflateInput) -> MatchResult { self.query(1, prev_len, max_depth, input) }
+    fn calculate_hops(&self, target: &PreflateTokenReference, input: &PreflateInput) -> Result<u32> {
+        let (pos, st) = (input.pos(), ch_state());
+        unsafe {
+            let mut i = 0;
+            while i < HK {
+                if i < H_N && H_REC[i][0] == pos && H_REC[i][1] == st && H_REC[i][2] == target.len() && H_REC[i][3] == target.dist() {
+                    return if H_REC[i][5] == 1 { Ok(H_REC[i][4]) } else { err_exit_code(ExitCode::MatchNotFound, "") };
+                }
+                i += 1;
+            }
+            kani::assume(H_N < HK);
+            let ok: bool = kani::any();
+            let h: u32 = kani::any();
+            kani::assume(h >= 1 && h < (1 << 20));
+            // distinct distances sit at distinct hop counts
+            let mut i = 0;
+            while i < HK {
+                if i < H_N && H_REC[i][0] == pos && H_REC[i][1] == st && H_REC[i][2] == target.len() && H_REC[i][5] == 1 { kani::assume(H_REC[i][4] != h); }
+                i += 1;
+            }
+            H_REC[H_N] = [pos, st, target.len(), target.dist(), h, ok as u32];
+            H_N += 1;
+            if ok { Ok(h) } else { err_exit_code(ExitCode::MatchNotFound, "") }
+        }
+    }
+    fn hop_match(&self, len: u32, hops: u32, input: &PreflateInput) -> Result<u32> {
+        let (pos, st) = (input.pos(), ch_state());
+        unsafe {
+            let mut i = 0;
+            while i < HK {
+                if i < H_N && H_REC[i][0] == pos && H_REC[i][1] == st && H_REC[i][2] == len && H_REC[i][4] == hops && H_REC[i][5] == 1 {
+                    return Ok(H_REC[i][3]);
+                }
+                i += 1;
+            }
+            kani::assume(H_N < HK);
+            let ok: bool = kani::any();
+            let d: u32 = kani::any();
+            kani::assume(d >= 1 && d <= core::cmp::max(pos, 1));
+            let mut i = 0;
+            while i < HK {
+                if i < H_N && H_REC[i][0] == pos && H_REC[i][1] == st && H_REC[i][2] == len && H_REC[i][5] == 1 { kani::assume(H_REC[i][3] != d); }
+                i += 1;
+            }
+            H_REC[H_N] = [pos, st, len, d, hops, ok as u32];
+            H_N += 1;
+            if ok { Ok(d) } else { err_exit_code(ExitCode::MatchNotFound, "") }
+        }
+    }
+    fn verify_hash(&self, _dist: Option<PreflateTokenReference>) {}
+    fn checksum(&self, _checksum: &mut crate::bit_helper::DebugHash) {}
+}
+pub fn mk_contract_predictor<'a>(text: &'a [u8], p: &TokenPredictorParameters) -> TokenPredictor<'a> {
+    TokenPredictor {
+        state: Box::new(ContractHolder { policy: p.add_policy }),
+        params: *p,
+        pending_reference: None,
+        current_token_count: 0,
+        max_token_count: p.max_token_count.into(),
+        input: PreflateInput::new(text),
+    }
+}
+
+/// blocks of EXACTLY N tokens (N stored bytes) from an ARBITRARY common pre-state (cursor P0, any pending lazy match, any
+/// counter).  The block SIZE is concrete per instance so that every Vec in play has a concrete length at every push
+/// (a Vec whose first push is conditional gave path-dependent spurious pointer failures, DESIGN 6); kinds, lengths,
+/// distances, bytes and parameters are symbolic.
+fn contract_mirror<const T: usize, const P0: usize, const MAXTOK: usize>(stored: bool) {
+    let text: [u8; T] = kani::any();
+    let mut p = any_predictor_params();
+    p.max_token_count = 127; // concrete: recreate_block reserves this many tokens when the count is not signalled
+    ContractHolder::reset();
+    let mut blk;
+    let mut pos = P0;
+    if stored {
+        blk = PreflateTokenBlock::new(BlockType::Stored);
+        kani::assume(P0 + MAXTOK <= T);
+        let mut i = 0;
+        while i < MAXTOK { blk.uncompressed.push(text[P0 + i]); i += 1; }
+        blk.padding_bits = kani::any();
+        kani::assume(blk.padding_bits < 128);
+        pos += MAXTOK;
+    } else {
+        blk = PreflateTokenBlock::new(if kani::any() { BlockType::StaticHuff } else { BlockType::DynamicHuff });
+        let mut i = 0;
+        while i < MAXTOK {
+            kani::assume(pos < T);
+            if kani::any() {
+                blk.add_literal(text[pos]);
+                pos += 1;
+            } else {
+                let l: usize = kani::any();
+                let d: usize = kani::any();
+                kani::assume(valid_reference(&text[..], pos, l, d));
+                let irregular: bool = kani::any();
+                kani::assume(!irregular || l == 258);
+                blk.add_reference(l as u32, d as u32, irregular);
+                pos += l;
+            }
+            i += 1;
+        }
+    }
+    let last: bool = kani::any();
+    kani::assume(!last || pos == T);
+    let pend: Option<PreflateTokenReference> = if kani::any() {
+        let l: u32 = kani::any();
+        let d: u32 = kani::any();
+        kani::assume(l >= 3 && l <= 258 && (P0 as u32 + l) as usize <= T && d >= 1 && d as usize <= P0);
+        Some(PreflateTokenReference::new(l, d, false))
+    } else { None };
+    let cnt: u32 = kani::any();
+    kani::assume(cnt <= 3);
+    let mut rec = Rec::new();
+    let mut pa = mk_contract_predictor(&text[..], &p);
+    pa.input.advance(P0 as u32);
+    pa.pending_reference = pend;
+    pa.current_token_count = cnt;
+    unsafe { UPD_SIDE = 0; }
+    let r = pa.predict_block(&blk, &mut rec, last);
+    let ok = r.is_ok();
+    if ok {
+        let mut pb = mk_contract_predictor(&text[..], &p);
+        pb.input.advance(P0 as u32);
+        pb.pending_reference = pend;
+        pb.current_token_count = cnt;
+        unsafe { UPD_SIDE = 1; }
+        let rb = pb.recreate_block(&mut rec);
+        assert!(rb.is_ok(), "recreate_block fails on corrections predict_block produced");
+        let b2 = rb.unwrap();
+        assert!(b2.block_type == blk.block_type, "block type changed");
+        assert!(b2.tokens.len() == blk.tokens.len(), "token count changed");
+        let mut i = 0;
+        while i < MAXTOK {
+            if i < blk.tokens.len() { assert!(b2.tokens[i] == blk.tokens[i], "token changed in reconstruction"); }
+            if i < blk.uncompressed.len() { assert!(b2.uncompressed[i] == blk.uncompressed[i], "stored byte changed"); }
+            i += 1;
+        }
+        assert!(b2.uncompressed.len() == blk.uncompressed.len() && b2.padding_bits == blk.padding_bits);
+        assert!(pb.input.pos() as usize == pos && pa.input.pos() as usize == pos, "cursor after the block differs");
+        assert!(pb.pending_reference == pa.pending_reference && pb.current_token_count == pa.current_token_count, "the two sides leave the block in different states");
+        assert!(rec.fully_consumed(), "reconstruction did not consume the corrections exactly");
+        assert!(same_dictionary_updates(), "analysis and reconstruction inserted different positions into the dictionary");
+        kani::cover!(true, "block mirrored");
+        kani::cover!(pend.is_some(), "mirrored with a pending lazy match in the pre-state");
+        core::mem::forget(b2);
+        core::mem::forget(pb);
+    }
+    kani::cover!(ok, "mirrored");
+    core::mem::forget(r);
+    core::mem::forget(pa);
+    core::mem::forget(blk);
+}
+kproof_vp! { fn k02m_contract_mirror_1() { contract_mirror::<6, 2, 1>(false); } }
+kproof_vp! { fn k02m_contract_mirror_2() { contract_mirror::<6, 1, 2>(false); } }
+kproof_vp! { fn k02m_contract_mirror_0() { contract_mirror::<6, 2, 0>(false); } }
+kproof_vp! { fn k02m_contract_mirror_stored() { contract_mirror::<6, 1, 0>(true); contract_mirror::<6, 1, 1>(true); contract_mirror::<6, 1, 4>(true); } }
